@@ -101,7 +101,7 @@ func isNilIdent(e ast.Expr) bool {
 	return ok && id.Name == "nil"
 }
 
-// swallowedIn counts `if <x> != nil { ... return ..., nil }` sites: an error turned into success
+// swallowedIn counts `if <x> != nil { ... return ..., nil }` and `if <x> != nil { ... break / continue }` sites: an error turned into success
 func swallowedIn(n ast.Node) int {
 	cnt := 0
 	ast.Inspect(n, func(x ast.Node) bool {
@@ -118,6 +118,10 @@ func swallowedIn(n ast.Node) int {
 		}
 		for _, st := range is.Body.List {
 			if rs, ok := st.(*ast.ReturnStmt); ok && len(rs.Results) > 0 && isNilIdent(rs.Results[len(rs.Results)-1]) {
+				cnt++
+			}
+			// … or leaves the loop / skips the iteration with the error in hand: the function goes on as if nothing had failed
+			if bs, ok := st.(*ast.BranchStmt); ok && (bs.Tok == token.BREAK || bs.Tok == token.CONTINUE) {
 				cnt++
 			}
 		}
